@@ -12,7 +12,7 @@ from typing import Dict, Iterable, List, Tuple
 from common import ALLOWED_AXIOMS, LEAN_DIR
 
 LOCK = os.path.join(LEAN_DIR, ".build.lock")
-DRIVER_EXE = os.path.join(LEAN_DIR, ".lake", "build", "bin", "driver")
+BIN_DIR = os.path.join(LEAN_DIR, ".lake", "build", "bin")
 
 FORBIDDEN = re.compile(
     r"\bsorry\b|\badmit\b|^\s*axiom\s|\bnative_decide\b|\bbv_decide\b|implemented_by|\bunsafe\s|maxHeartbeats\s+0\b"
@@ -132,22 +132,16 @@ def audit_axioms(modules: List[str], theorems: List[str], tag: str) -> Dict[str,
     return res
 
 
-class Driver:
-    """The native model driver behind a pipe; `ask_many` pipelines requests."""
-
-    def __init__(self):
-        if not os.path.exists(DRIVER_EXE):
-            ok, out = lake_build(["driver"])
+class _Proc:
+    def __init__(self, exe: str):
+        path = os.path.join(BIN_DIR, exe)
+        if not os.path.exists(path):
+            ok, out = lake_build([exe])
             if not ok:
-                raise RuntimeError("cannot build driver:\n" + out[-2000:])
-        self.p = subprocess.Popen(
-            [DRIVER_EXE], stdin=subprocess.PIPE, stdout=subprocess.PIPE, text=True, bufsize=1 << 20
-        )
+                raise RuntimeError(f"cannot build {exe}:\n" + out[-2000:])
+        self.p = subprocess.Popen([path], stdin=subprocess.PIPE, stdout=subprocess.PIPE, text=True, bufsize=1 << 20)
 
     def ask_many(self, lines: List[str]) -> List[str]:
-        if not lines:
-            return []
-        # write in chunks to avoid pipe dead-lock on very large batches
         out: List[str] = []
         CH = 2000
         for k in range(0, len(lines), CH):
@@ -160,15 +154,47 @@ class Driver:
             assert fl == "flushed", f"driver protocol out of sync: {fl!r}"
         return out
 
-    def ask(self, line: str) -> str:
-        return self.ask_many([line])[0]
-
     def close(self):
         try:
             self.p.stdin.close()
             self.p.wait(timeout=5)
         except Exception:
             self.p.kill()
+
+
+class Driver:
+    """The native model drivers behind pipes.  A request `<fam>.<op> …` is served by the executable
+    `drv_<fam>` (one per model family, see lean/lakefile.toml); `ask_many` pipelines requests."""
+
+    def __init__(self):
+        self.procs: Dict[str, _Proc] = {}
+
+    def _proc(self, fam: str) -> _Proc:
+        if fam not in self.procs:
+            self.procs[fam] = _Proc("drv_" + fam)
+        return self.procs[fam]
+
+    def ask_many(self, lines: List[str]) -> List[str]:
+        if not lines:
+            return []
+        fams = [ln.split(".", 1)[0] for ln in lines]
+        if len(set(fams)) == 1:
+            return self._proc(fams[0]).ask_many(lines)
+        out = [None] * len(lines)
+        for fam in set(fams):
+            idx = [k for k, f in enumerate(fams) if f == fam]
+            rep = self._proc(fam).ask_many([lines[k] for k in idx])
+            for k, r in zip(idx, rep):
+                out[k] = r
+        return out
+
+    def ask(self, line: str) -> str:
+        return self.ask_many([line])[0]
+
+    def close(self):
+        for p in self.procs.values():
+            p.close()
+        self.procs = {}
 
 
 def parse_fields(reply: str) -> Dict[str, str]:
